@@ -1162,8 +1162,9 @@ func main() {
 	var s strings.Builder
 	s.WriteString(header)
 	s.WriteString("import Protobom.Model.Types\n\nnamespace Protobom.Gen.Schema\nopen Protobom\n\n")
-	var attrs, all []string
+	var attrs, all, pnames []string
 	for _, f := range nodeF {
+		pnames = append(pnames, fmt.Sprintf("(%s, %s)", leanStr(f.GoName), leanStr(f.Name)))
 		all = append(all, fmt.Sprintf("(%s, %d, %s)", leanStr(f.Name), f.Number, leanStr(f.Kind)))
 		if f.Name == "id" || f.Name == "type" {
 			continue
@@ -1176,6 +1177,7 @@ func main() {
 	}
 	fmt.Fprintf(&s, "/-- every field of the Node message: proto name, number, kind -/\ndef nodeAllFields : List (String × Nat × String) := %s\n\n", leanList(all))
 	fmt.Fprintf(&s, "/-- the attributes (every field except id and type): Go field name and kind, in field-number order -/\ndef nodeAttrs : List (String × Kind) := %s\n\n", leanList(attrs))
+	fmt.Fprintf(&s, "/-- Go field name -> proto field name of the Node message -/\ndef nodeProtoNames : List (String × String) := %s\n\n", leanList(pnames))
 	msg := func(name string, fs []fieldInfo) {
 		var items []string
 		for _, f := range fs {
